@@ -1,6 +1,53 @@
 import DriverOps.Common
-/- driver ops with prefix "ch." (owned by the Channel model) -/
+/- driver ops with prefix "ch." (Channel model: C10) -/
 open Lean Lasio
 
-def handleChannel (op : String) (j : Json) : Except String Json :=
-  throw s!"op {op} not implemented"
+def jsecs (l : List SecObj) : Json := jlist (fun s => jlist jstr s) l
+
+def getSecObj (j : Json) : Except String SecObj := getList getS j
+
+def getWOp (j : Json) : Except String WOp := do
+  let a ← arr j
+  let name ← (a[0]!).getStr?
+  match name with
+  | "new" => pure .newLas
+  | "mutate" => do
+    let o ← (a[1]!).getNat?; let k ← (a[2]!).getNat?; let v ← getSecObj a[3]!
+    pure (.mutate o k v)
+  | "read" => do
+    let o ← (a[1]!).getNat?
+    let ps ← getList (fun p => do
+      let q ← arr p
+      let k ← (q[0]!).getNat?; let v ← getSecObj q[1]!
+      pure (k, v)) a[2]!
+    pure (.read o ps)
+  | _ => throw s!"unknown world op {name}"
+
+def handleChannel (op : String) (j : Json) : Except String Json := do
+  match op with
+  | "ch.classify" => do
+    let s ← fldS j "s"
+    pure (Json.str (match classifyStr s with
+      | .content => "content" | .filename => "filename" | .indexError => "IndexError"))
+  | "ch.splitlines" => do
+    let s ← fldS j "s"
+    pure (jlist jstr (pySplitlines s))
+  | "ch.enc" => do
+    let bom ← (← fld j "bom").getBool?
+    let arg ← fld j "arg"
+    let a : Option Str := match arg with | .str s => some s.toList | _ => none
+    pure (match chooseEncoding bom a with
+      | .utf8sig => Json.str "utf-8-sig" | .named e => jstr e | .detect => Json.str "<detect>")
+  | "ch.univnl" => do
+    let s ← fldS j "s"
+    pure (jstr (univNL s))
+  | "ch.world" => do
+    let fresh ← (← fld j "fresh").getBool?
+    let ops ← getList getWOp (← fld j "ops")
+    let mut w := World.init
+    let mut out : Array Json := #[]
+    for o in ops do
+      w := w.step fresh o
+      out := out.push (jlist (fun i => jsecs (w.observe i)) (List.range w.objs.length))
+    pure (Json.arr out)
+  | _ => throw s!"op {op} not implemented"
